@@ -6,6 +6,7 @@ require (
 	github.com/cockroachdb/errors v0.0.0
 	github.com/cockroachdb/logtags v0.0.0-20230118201751-21c54148d20b
 	github.com/cockroachdb/redact v1.1.5
+	github.com/getsentry/sentry-go v0.27.0
 	github.com/gogo/protobuf v1.3.2
 	github.com/gogo/status v1.1.0
 	github.com/hydrogen18/memlistener v1.0.0
@@ -14,7 +15,6 @@ require (
 )
 
 require (
-	github.com/getsentry/sentry-go v0.27.0 // indirect
 	github.com/gogo/googleapis v1.4.1 // indirect
 	github.com/golang/protobuf v1.5.3 // indirect
 	github.com/kr/pretty v0.3.1 // indirect
